@@ -39,7 +39,14 @@ def c04(ctx: Ctx):
         "a refusal by the loader (verdict L) of a document with a violation counts as rejection",
         "open regions excluded (DocRules!InScope): AllowExtraSiblingFields(f) for f as an ordinary extra field or an x- field; "
         "DisableExamplesValidation for the Example Objects of an examples map; deepObject without explicit explode; "
-        "http security schemes outside basic/bearer/digest/negotiate; URL syntax; server-variable enums",
+        "http security schemes outside basic/bearer/digest/negotiate; URL syntax beyond 'nothing before the first colon' "
+        "(checked for externalDocs.url and the OAuth flow URLs only, as the library does); server-variable enums; "
+        "null for a Media Type, Encoding or Path Item and for a single (non-array, non-map) member",
+        "an example is judged in the mode of the innermost Request Body (readOnly properties barred, their 'required' waived) or "
+        "Response (the same for writeOnly) that contains it, otherwise in neither mode; components reached through $ref are judged "
+        "where they are defined (the referenced components of the universe carry no mode-sensitive example)",
+        "option RxAny = SetRegexCompiler(a compiler accepting every expression), RxStd = SetRegexCompiler(nil); a sequence starting "
+        "with @ctx hands its options over with WithValidationOptions in the context instead of as arguments of Validate",
         "bounds: the location paths, nesting depth and per-kind leaf sets of spec/MC_C04_<tier>.cfg; strings from the "
         "finite vocabulary of spec/DocRules.tla",
     ]
@@ -99,6 +106,6 @@ def c04(ctx: Ctx):
     ctx.extra.update(cases=ncases, option_sets=nsets, locations=len(locations), rule_kind_pairs=len(rules), kinds=len(kinds))
     ctx.rule = ("cases = every closed state of spec/MC_C04.tla within the bounds of MC_C04_%s.cfg: a location path through the "
                 "containment graph x (conforming variant | one violation of one rule of the kind found there | reference form); "
-                "each document is loaded and validated under all %d ordered option sequences (2^7 subsets + sequences with the Enable*/reset options); evaluations counts (document, option sequence) "
+                "each document is loaded and validated under all %d ordered option sequences (2^7 subsets + sequences with the Enable*/reset options, the regex-compiler option and options handed over in the context); evaluations counts (document, option sequence) "
                 "verdicts; non-trivial = distinct documents other than the minimal conforming one of a location" % (ctx.tier, nsets))
     ctx.validate("Trace_C04", "Trace_C04.cfg", logp, chunk_lines=max(200, min(2500, ncases // 16 + 1)), timeout=1500)
